@@ -127,6 +127,12 @@ type Sim struct {
 	StallMenu  []time.Duration
 	IdleLimit  time.Duration // how far the clock may be advanced with nothing enabled before "stuck"
 	StuckIsBug bool          // report "stuck" as a violation (class <prefix>.stuck) instead of a cut
+	// SpinLimit > 0: that many scheduler steps in a row without the simulated clock moving are a
+	// livelock (tasks keep running but nothing ever waits) and reported as <prefix>.livelock.
+	// Set it well above what the busiest legitimate instant of the property needs.
+	SpinLimit int
+	spinSince int
+	spinAt    time.Time
 	ClassPref  string
 
 	Values map[string]any // scratch space for shims (simnet world, simfs, …)
@@ -519,6 +525,20 @@ func (s *Sim) loop() {
 		}
 		if s.violation != nil || s.harnessErr != "" || s.mainDone || s.abort {
 			return
+		}
+		if s.SpinLimit > 0 {
+			if now := time.Now(); !now.Equal(s.spinAt) {
+				s.spinAt, s.spinSince = now, s.step
+			} else if s.step-s.spinSince > s.SpinLimit {
+				var b strings.Builder
+				for _, w := range s.waiters {
+					if w.ready == nil || w.ready() {
+						fmt.Fprintf(&b, " [%s %s]", w.kind, w.res)
+					}
+				}
+				s.Fail(s.ClassPref+".livelock", "%d scheduler steps were taken at simulated instant +%v without any task ever having to wait; still runnable:%s", s.step-s.spinSince, time.Since(s.start), b.String())
+				return
+			}
 		}
 		if s.step >= s.cfg.MaxSteps {
 			s.cutShort = fmt.Sprintf("step budget (%d) exhausted", s.cfg.MaxSteps)
